@@ -153,6 +153,17 @@ Lemma emit_unary_unfold op a :
   emit_unary op a = (let a' := ensure_concrete_string a in let! ty := unary_check op (operand_tdesc a') in emit_result ty (RUnary op a')).
 Proof. unfold emit_unary, unary_check. destruct op; reflexivity. Qed.
 
+(* ---- subscripts ---- *)
+Theorem subscript_check_spec obj ix s : succeeds (check_object_subscript_type obj ix) s = spec_subscript (operand_tdesc obj) (operand_tdesc ix).
+Proof.
+  unfold check_object_subscript_type, spec_subscript, succeeds, mbind.
+  pose proof (m_to_concrete_spec (operand_tdesc obj) s) as D. unfold succeeds in D.
+  destruct (m_to_concrete (operand_tdesc obj) s) as [[ty| |x] s']; cbn [fst] in D; rewrite <- D; try reflexivity.
+  destruct ty as [n|n|e]; try reflexivity. unfold spec_index.
+  destruct (operand_tdesc ix) as [t| | | |]; try reflexivity.
+  destruct (tkind_eqb t T_INT || tkind_eqb t T_UINT); reflexivity.
+Qed.
+
 (* ---- assignment and casts ---- *)
 Theorem is_assignable_spec E t a : is_assignable E t a = spec_assignable E t a.
 Proof.
